@@ -47,6 +47,7 @@ struct C21 : vf::Engine {
         for (int b = 0; b < nb; ++b) { int t = (int)r.below(10); char c = t < 4 ? 'P' : t < 5 ? 'S' : t < 6 ? 'U' : t < 9 ? 'B' : 'F'; model += c; model += std::to_string(r.below(b + 1)); model += ' '; }
         p.setcfg("model", model); p.setcfg("model_seed", (uint64_t)(r.next() >> 8));
         p.setcfg("euler", r.chance(0.2) ? 1 : 0);
+        p.setcfgr("perturb_q", r.chance(0.5) ? 0.0 : r.pick(std::vector<double>{1e-4, 3e-3, 1e-2}));   // the state handed to initialize() is this far off the position manifold (and its quaternions un-normalized)
         int nc = r.chance(0.15) ? 0 : r.range(1, 3);
         for (int c = 0; c < nc; ++c) { static const char* K[] = {"rod", "rod", "ball", "ball", "pip", "cspeed", "ccoord", "noslip", "weld", "cangle"}; p.ops.push_back(vf::mkop("cons").set("kind", K[r.below(10)]).set("seed", (long)(r.next() >> 16))); }
         int nm = r.chance(0.5) ? 0 : r.range(1, 2);
@@ -176,6 +177,7 @@ struct C21 : vf::Engine {
         M.sys.realizeTopology(); init = M.sys.getDefaultState();
         M.matter.setUseEulerAngles(init, euler); M.sys.realizeModel(init);
         setInitial(M, init, mseed, true); init.setTime(0);
+        { const double pq = p.cfgr("perturb_q", 0); if (pq > 0) { Rng pr(mseed ^ 0xabcdef); Vector q = init.getQ(); for (int i = 0; i < q.size(); ++i) q[i] += pr.uni(-pq, pq); init.updQ() = q; } }
         for (auto& q : M.pres) if (q.kind == 2) { MobilizedBody& m = M.mob[q.body]; m.lock(init, q.level == 0 ? Motion::Position : q.level == 1 ? Motion::Velocity : Motion::Acceleration); }
         (void)why; return true;
     }
@@ -259,13 +261,13 @@ struct C21 : vf::Engine {
         // handler faults
         int hmodAt = -1; double hmodF = 0.5; for (auto& fl : p.faults) if (fl.kind == "hmod") { hmodAt = (int)fl.num("ev", 0); hmodF = fl.real("f", 0.5); }
         int eventsHandled = 0; long firedHmod = 0; bool over = false; double lastEventTime = -Infinity, lastAdv = integ->getAdvancedTime();
-        int reqIndex = -1; std::set<int> statuses;
+        int reqIndex = -1; std::set<int> statuses; double prevRetT = integ->getTime(), prevRetAdv = integ->getAdvancedTime();
         for (auto& op : p.ops) {
             if (res.violation) break;
             if (op.kind == "reinit") {
                 State again = op.num("how", 0) ? State(integ->getAdvancedState()) : State(init);
                 try { integ->initialize(again); } catch (const std::exception& e) { res.inconclusive = true; res.detail = std::string("re-initialize failed: ") + e.what(); break; }
-                monitor(integ->getState(), "initial", false, " [after re-initialize]"); over = false; lastEventTime = -Infinity; lastAdv = integ->getAdvancedTime(); res.count("probe_reinitialized"); key.mix(99); continue;
+                monitor(integ->getState(), "initial", false, " [after re-initialize]"); over = false; lastEventTime = -Infinity; lastAdv = integ->getAdvancedTime(); prevRetT = integ->getTime(); prevRetAdv = lastAdv; res.count("probe_reinitialized"); key.mix(99); continue;
             }
             if (op.kind != "req") continue;
             ++reqIndex; if (over) continue;
@@ -298,6 +300,12 @@ struct C21 : vf::Engine {
             res.count(std::string("status_") + Integrator::getSuccessfulStepStatusString(st).c_str()); res.simtime += std::max(0.0, adv - lastAdv); lastAdv = adv;
             std::string ctx = " [request " + std::to_string(reqIndex) + ": stepTo r=" + S(rt) + " s=" + S(s) + " -> " + Integrator::getSuccessfulStepStatusString(st).c_str() + " t=" + S(t) + " tAdv=" + S(adv) + (interp ? " interpolated" : "") + "]";
             const char* what = st == Integrator::ReachedEventTrigger ? "event-before-state" : interp ? "interpolated-report" : st == Integrator::StartOfContinuousInterval ? "start-of-interval" : "step-state";
+            // cross-check (counted, never a violation of THIS property): the step/report/final-time contract of C19 on these constrained models
+            { const double bound = std::min(rt, std::min(s, f)); bool bad = false;
+              if (!(t <= bound)) bad = true; if (t < prevRetT || adv < prevRetAdv || adv < t) bad = true; if (!(adv <= std::min(s, f))) bad = true;
+              if (st == Integrator::ReachedReportTime && !(t == rt || (f < rt && t == f))) bad = true; if (st == Integrator::ReachedScheduledEvent && t != s) bad = true; if (st == Integrator::EndOfSimulation && t != f) bad = true;
+              if (bad && ik != 8) { res.count("crosscheck_c19_contract_deviation"); if (getenv("VERIF_DEBUG")) std::fprintf(stderr, "C19 contract deviation%s\n", ctx.c_str()); }
+              prevRetT = t; prevRetAdv = adv; }
             if (st == Integrator::ReachedEventTrigger) ++checkedBefore;
             monitor(integ->getState(), what, interp, ctx);
             if (res.violation || blewUp) break;
@@ -333,7 +341,7 @@ struct C21 : vf::Engine {
         res.count("states_checked", checked); res.count("probe_interpolated_state_checked", checkedInterp); res.count("probe_event_before_state_checked", checkedBefore); res.count("interpolated_exempt_projection_off", exemptInterp); res.count("incon_nonfinite_state", nanExcused);
         try { res.count("probe_projection_changed_q", integ->getNumQProjections()); res.count("probe_projection_changed_u", integ->getNumUProjections()); res.count("probe_projection_failures", integ->getNumProjectionFailures());
               res.count("probe_realization_failures", integ->getNumRealizationFailures()); res.count("probe_rejected_steps", integ->getNumStepsAttempted() - integ->getNumStepsTaken()); } catch (...) {}
-        res.count("models_with_constraints", M.consKinds.empty() ? 0 : 1); res.count("models_with_prescribed", M.pres.empty() ? 0 : 1);
+        res.count("crosscheck_c19_contract_deviation", 0); res.count("models_with_constraints", M.consKinds.empty() ? 0 : 1); res.count("models_with_prescribed", M.pres.empty() ? 0 : 1);
         for (auto& k : M.consKinds) res.count("cons_" + k);
         bool constrained = !M.consKinds.empty() || !M.pres.empty() || M.matter.getNumQuaternionsInUse(integ->getAdvancedState()) > 0;
         res.nontrivial = constrained && checkedInterp >= 1 && checked - checkedInterp >= 2;
